@@ -27,6 +27,8 @@ type Stub struct {
 	ID     string `toml:"id"`
 	Prefix string `toml:"prefix"`
 	Reply  string `toml:"reply"`
+	// ReadDelayMs delays the first read (a service that does something before it reads)
+	ReadDelayMs int `toml:"read_delay_ms"`
 
 	mu       sync.Mutex
 	cond     *sync.Cond
@@ -82,6 +84,9 @@ func (s *Stub) Handle(ctx context.Context, conn net.Conn) error {
 	s.mu.Unlock()
 	if s.Reply != "" {
 		conn.Write([]byte(s.Reply))
+	}
+	if s.ReadDelayMs > 0 {
+		time.Sleep(time.Duration(s.ReadDelayMs) * time.Millisecond)
 	}
 	buf := make([]byte, 700)
 	for {
